@@ -171,6 +171,12 @@ def verify_function(c: Contract, timeout_s: float = 10.0, solve: bool = True) ->
             gv, st = ex.fresh_in(ty, g, st)
             st.ghost[g] = gv
             ex.inputs[g] = gv
+        for pn, pfn in getattr(c, "param_terms", {}).items():
+            # a parameter defined as a term over the ghost parameters (precondition `p == term`, substituted)
+            pv = pfn(**{g: st.ghost[g] for g in c.ghost})
+            env[pn] = pv
+            ex.inputs[pn] = pv
+            st = st.bind(pn, pv)
         st = st.assume(ALLOC0 > 0)
         for p in c.touch:
             st = ex.touch(env[p], st)
@@ -265,7 +271,11 @@ def verify_function(c: Contract, timeout_s: float = 10.0, solve: bool = True) ->
     rep.partial_raises = sorted(set(ex.partial_raises))
     rep.inlined = ex.inlined
     if solve:
-        solve_all(rep.obligations, timeout_s * getattr(c, "timeout_factor", 1.0))
+        smt.Z3_FIRST_S = getattr(c, "z3_first_s", None)
+        try:
+            solve_all(rep.obligations, timeout_s * getattr(c, "timeout_factor", 1.0))
+        finally:
+            smt.Z3_FIRST_S = None
     rep.seconds = time.time() - t0
     return rep
 
